@@ -211,7 +211,7 @@ pub fn run(script: &[Line], prefix: &[usize], horizon: usize) -> Exec {
                 match script[next_line].guard {
                     Guard::Now => true,
                     Guard::WhenAnswered => main_idle && all_due_answered(&log),
-                    Guard::AfterInfoLines(n) => main_idle && log.iter().filter(|e| matches!(e, Ev::Out(_, t) if t.starts_with("info depth"))).count() >= n,
+                    Guard::AfterInfoLines(n) => main_idle && log.iter().filter(|e| matches!(e, Ev::Out(_, t) if crate::srch::is_depth_line(t))).count() >= n,
                 }
             };
             if ok {
